@@ -837,16 +837,6 @@ def edit_status(obj_tree, classes, e):
     return "ok"
 
 
-def reserved_hit(c):
-    """an edit whose path component is handed on as a keyword named like one of replace()'s own parameters"""
-    kwform = c.get("cd") is None
-    for e in c.get("edits") or []:
-        p = e["path"]
-        if any(k in RESERVED for k in p[1:]) or (kwform and p[0] in RESERVED):
-            return True
-    return False
-
-
 def oracle(case, obs):
     op, c = case["op"], case["case"]
     fails = []
@@ -970,47 +960,8 @@ def _sig_d19(case, obs, fail):
     return True
 
 
-def _sig_reserved(case, obs, fail):
-    """a field named `obj` / `changes_dict` is addressed below the top level (its name is passed on as a keyword
-    of replace() itself); the only wrong thing is the outcome of that call"""
-    if case["op"] != "replace.e2e" or fail.get("clause") not in ("outcome", "forms", "addressed", "frame", "reference"):
-        return False
-    return reserved_hit(case["case"])
-
-
-def _sig_sg_reset(case, obs, fail):
-    """replace_subgroups: every differing leaf lies below a nested dataclass field that was only passed through
-    (a selection addresses one of its members, not the field itself) and holds the class default there"""
-    if case["op"] != "replace.subgroups" or fail.get("clause") not in ("sg-frame", "sg-outcome"):
-        return False
-    c = case["case"]
-    through = [s["path"][:-1] for s in c["sels"] if len(s["path"]) >= 2
-               and not any(t["path"] == s["path"][:-1] for t in c["sels"])]
-    if not through:
-        return False
-    if fail["clause"] == "sg-outcome":
-        # same root cause: the passed-through field has no default_factory to rebuild it from -> TypeError
-        if fail.get("exc") != "TypeError":
-            return False
-        return any(not field_of(c["classes"], tree_get(c["obj"], q[:-1])["cls"], q[-1]).get("factory") for q in through)
-    for p in fail.get("diff", []):
-        pre = [q for q in through if is_prefix(q, p) and len(q) < len(p)]
-        if not pre:
-            return False
-        q = pre[0]
-        cur = tree_get(c["obj"], q)
-        if cur is None or cur.get("t") != "inst":
-            return False
-        f = field_of(c["classes"], tree_get(c["obj"], q[:-1])["cls"], q[-1])
-        if tree_get(f["default"], p[len(q):]) != tree_get(obs["out"]["v"], p):
-            return False
-    return True
-
-
 FINDINGS = {
     "C18-D19-dotted-through-noninst": _sig_d19,
-    "C18-reserved-kwarg": _sig_reserved,
-    "C18-subgroups-nested-reset": _sig_sg_reset,
 }
 
 
@@ -1096,22 +1047,23 @@ def shrink(case):
 
 
 MANIFEST = {
-    "text": ("Proof, partial (three named gaps). Lean theorems over a branch-by-branch model of replace.py and "
-             "utils.unflatten*: by induction on the instance tree, a successful replace() keeps the class and the field "
-             "skeleton at every level, sets every addressed leaf to the new value and leaves every init leaf that no "
-             "change addresses untouched (frame); an empty change set is the identity; positional-dict and keyword "
-             "forms coincide and a dotted change set equals its unflattened nested form; a single dotted edit equals "
-             "dataclasses.replace applied level by level; changes to init=False fields raise ValueError and unknown "
-             "names raise TypeError at any depth; replace_subgroups with a one-level selection swaps exactly the "
-             "selected member. The full statements are refuted by concrete witnesses for the three open findings "
-             "(dotted path through None / a non-dataclass value stores a dict; nested replace_subgroups resets the "
-             "siblings of the selected member to class defaults; fields named obj / changes_dict are outside the model). "
-             "The model is tied to the code by five correspondence ops and the property's own statement (expected tree "
-             "from the edit list, three input forms, dataclasses.replace reference, input deep-copy) is evaluated on "
+    "text": ("Proof, partial (one named gap, D19). Lean theorems over a branch-by-branch model of replace.py and "
+             "utils.unflatten*: a successful replace() keeps the class and the field skeleton, sets every addressed leaf to "
+             "the new value at any depth and in any mixture of forms (provided the path exists in obj: D19 exclusion) and "
+             "leaves every init leaf that no change addresses untouched (frame); an empty change set is the identity; "
+             "positional-dict and keyword forms coincide and a dotted edit equals its nested form at any depth; a single "
+             "edit equals dataclasses.replace applied level by level; changes to init=False fields and unknown names never "
+             "return normally, and errors below propagate; nested fields may be named obj / changes_dict; "
+             "replace_subgroups swaps exactly the selected member (one-level selection = dataclasses.replace of that "
+             "member), leaves every unselected member alone (frame) and a nested selection keeps every sibling of the "
+             "replaced member. The full addressed-leaf statement is refuted by the concrete D19 witness (dotted path through "
+             "None / a non-dataclass value stores a dict). The model is tied to the code by five correspondence ops and the "
+             "property's own statement (expected tree from the edit list, three input forms, empty nested change sets, "
+             "dataclasses.replace reference, input deep-copy, change-set dict not consumed and reusable) is evaluated on "
              "every real observation."),
     "note": ("Trusted: Lean kernel + propext/Classical.choice/Quot.sound; stdlib dataclasses; the harness. Modelled not "
              "verified: replace.py:37-232, utils.py:907-951. Not modelled: aliasing between user-supplied change dicts, "
-             "__post_init__, InitVar, nested fields named like replace()'s own parameters (reported as unmodelled)."),
+             "__post_init__, InitVar, the top-level keyword form with names obj / changes_dict (not expressible as a call; reported as unmodelled)."),
     "technique": "Lean 4 structural induction over instance trees + differential correspondence against replace()/replace_subgroups()",
     "design_ref": "DESIGN.md section 5, C18",
 }
